@@ -135,7 +135,7 @@ LifeInit == TraceInit /\ ro = NoRo /\ retired = "" /\ q = ""
 LifeNext ==
   \/ Base
   \/ ((TrRo \/ TrQCall \/ TrQRet \/ TrDrop \/ TrDropDelete \/ TrState \/ TrRecCall \/ TrRecRet
-        \/ TrDeleteCall \/ TrDeleteBe \/ TrDeleteRet \/ TrListing) /\ UNCHANGED flt)
+        \/ TrDeleteCall \/ TrDeleteBe \/ TrDeleteRet \/ TrListing) /\ UNCHANGED <<flt, skew>>)
 
 LifeSpec == LifeInit /\ [][LifeNext]_ltvars
 
